@@ -1,17 +1,14 @@
 use stam::*;
+use stamverif::hist::*;
 fn main() {
-    let dir = "/tmp/dbg1";
-    let _ = std::fs::remove_dir_all(dir); std::fs::create_dir_all(dir).unwrap();
-    std::fs::write(format!("{}/r0.resource.stam.json", dir), r#"{"@type":"TextResource","@id":"r1","text":"hello"}"#).unwrap();
-    std::fs::write(format!("{}/main.store.stam.json", dir), r#"{"@type":"AnnotationStore","resources":[{"@type":"TextResource","@id":"r1","@include":"r0.resource.stam.json"}],"annotationsets":[],"annotations":[{"@type":"Annotation","target":{"@type":"ResourceSelector","resource":"r1"},"data":[]}]}"#).unwrap();
-    let cfg = Config::default().with_use_include(true).with_workdir(dir.to_string());
-    match AnnotationStore::from_file(&format!("{}/main.store.stam.json", dir), cfg) {
-        Ok(s) => {
-            for r in s.resources() { println!("resource id={:?} text={:?}", r.id(), r.text()); }
-            println!("save: {:?}", s.save().map_err(|e| format!("{}", e)));
-            println!("main: {}", std::fs::read_to_string(format!("{}/main.store.stam.json", dir)).unwrap());
-            println!("res file: {:?}", std::fs::read_to_string(format!("{}/r0.resource.stam.json", dir)).unwrap());
-        }
-        Err(e) => println!("ERR {}", e),
-    }
+    let path = std::env::args().nth(1).unwrap();
+    let v: serde_json::Value = serde_json::from_str(&std::fs::read_to_string(path).unwrap()).unwrap();
+    let hist: History = serde_json::from_value(v["case"]["hist"].clone()).unwrap();
+    let mut m = Machine::new(false);
+    for op in &hist.ops { m.apply(op); }
+    let dir = "/tmp/dbg15"; let _ = std::fs::remove_dir_all(dir); std::fs::create_dir_all(dir).unwrap();
+    m.store.to_file(&format!("{}/x.store.stam.csv", dir)).unwrap();
+    for e in std::fs::read_dir(dir).unwrap() { let e = e.unwrap(); println!("--- {:?}\n{}", e.file_name(), std::fs::read_to_string(e.path()).unwrap()); }
+    let s2 = AnnotationStore::from_file(&format!("{}/x.store.stam.csv", dir), Config::default()).unwrap();
+    for a in s2.annotations() { println!("ann handle={} id={:?} target={:?}", a.handle().as_usize(), a.id(), a.as_ref().target()); }
 }
